@@ -340,7 +340,7 @@ type mon struct{}
 func (mon) Name() string { return "ipfilter" }
 
 func (mon) Level(string) (string, string) {
-	return "exploration", "operation sequences (exhaustive over a 12-op alphabet up to length 4 (quick) / 5 (thorough), and over a 10-op alphabet of edge ranges (network address 0.0.0.0, top of the address space) up to length 3, replayed from empty and after 254/255/256 filler adds so that they run in list mode, across the list→map migration and in map mode; plus seeded random sequences over a small universe steered across the migration), every boundary address of every touched range probed in 4- and 16-byte form (and as the tail of a genuine IPv6 address, which only 0.0.0.0/0 covers) against a set-of-prefixes model; the package's other exported helpers (FirstIP/LastIP) are called between the operations, and in 1/8 (exhaustive) resp. 1/3 (random) of the sequences a second filter instance receives the same history shifted into another address space, each instance probed with both spaces against its own model; distinct_nontrivial = distinct (filler, sequence) pairs whose sequence changes the model at least once"
+	return "exploration", "operation sequences (exhaustive over a 12-op alphabet up to length 4 (quick) / 5 (thorough), and over a 10-op alphabet of edge ranges (network address 0.0.0.0, top of the address space) up to length 3, and the main alphabet to length 3 on filters whose 200/256/257/300 filler ranges were all removed again, replayed from empty and after 254/255/256 filler adds so that they run in list mode, across the list→map migration and in map mode; plus seeded random sequences over a small universe steered across the migration), every boundary address of every touched range probed in 4- and 16-byte form (and as the tail of a genuine IPv6 address, which only 0.0.0.0/0 covers) against a set-of-prefixes model; the package's other exported helpers (FirstIP/LastIP) are called between the operations, and in 1/8 (exhaustive) resp. 1/3 (random) of the sequences a second filter instance receives the same history shifted into another address space, each instance probed with both spaces against its own model; distinct_nontrivial = distinct (filler, sequence) pairs whose sequence changes the model at least once"
 }
 
 func (mon) Assumptions(string) []string {
@@ -523,6 +523,35 @@ func (mn mon) Run(sh drv.Shard, c *drv.Ctx) {
 			return true
 		}
 		recE(nil, 0)
+		// drained filters: every filler is removed again before the ops (the filter is empty, in list
+		// mode with all slots dead, or in map mode with every map empty), then sequences to length 3
+		al = alphabet()
+		idx = 0
+		drained := [][2]int{{200, 1}, {256, 1}, {257, 1}, {300, 1}}
+		var recD func(prefix []Op, depth int) bool
+		recD = func(prefix []Op, depth int) bool {
+			if len(prefix) > 0 {
+				idx++
+				if idx%a.Parts == a.Part {
+					for _, fl := range drained {
+						cs := Case{Filler: fl[0], FillerRem: fl[1], Ops: append([]Op(nil), prefix...), ProbeEvery: 1, RandProbes: 2, Seed: sh.Seed + int64(idx)}
+						if !exec(cs) {
+							return false
+						}
+					}
+				}
+			}
+			if depth == 3 {
+				return true
+			}
+			for _, o := range al {
+				if !recD(append(prefix, o), depth+1) {
+					return false
+				}
+			}
+			return true
+		}
+		recD(nil, 0)
 	case "rand":
 		r := rand.New(rand.NewSource(sh.Seed*1000003 + int64(a.Part)))
 		for i := 0; i < a.Count; i++ {
